@@ -628,7 +628,7 @@ def model_fingerprints(report):
             try:
                 tree = parse(rel)
                 node = tree if name is None else find_func(tree, name, cls)
-                report[key] = "sha1:" + hashlib.sha1(ast.dump(node).encode()).hexdigest()[:12]
+                report[key] = "sha1:" + hashlib.sha1(ast.unparse(node).encode()).hexdigest()[:12]      # the unparsed source: the same under every interpreter version
             except (Untranslatable, OSError, SyntaxError) as e:
                 report[key] = "MISSING: " + str(e)[:80]
 
